@@ -136,6 +136,11 @@ def inline_helpers(crate):
     parse_parts = _parts_of_parse(crate)
     for b in crate.facts["bodies"]:
         d = b["def"]
+        if b["kind"] in ("Fn", "AssocFn") and "::{" not in d and hir.base_path(d).startswith(crate.name + "::interface::Adapter::"):
+            # a provided method of the transport trait (`send` = write + flush): what the library does with a transport
+            # when the user's adapter does not override it - evaluated in place like a private helper
+            out[hir.base_path(d)] = {"params": b["params"], "value": hir.async_full(b["value"]), "def": d, "generics": b.get("generics") or []}
+            continue
         if b["kind"] not in ("Fn", "AssocFn") or "::{" in d or b.get("trait_default"):
             continue
         private_trait_impl = bool(b.get("trait")) and b["trait"].startswith(crate.name + "::") and "Public" not in (b.get("vis") or "Public")
